@@ -57,6 +57,30 @@ func (e *Enc) genCandidates() {
 						ct := e.constTerm(c)
 						add(phi.Name()+">="+ct.S, func(e *Enc, bind map[ssa.Value]Val, st *State) Term { return Ge(e.phiVal(phi, bind), ct) })
 						add(phi.Name()+"<="+ct.S, func(e *Enc, bind map[ssa.Value]Val, st *State) Term { return Le(e.phiVal(phi, bind), ct) })
+					} else if ev := phi.Edges[i]; ev != nil {
+						// entry value computed before the loop
+						ev := ev
+						get := func(e *Enc) (Term, bool) {
+							v, ok := e.vals[ev]
+							if !ok || v.T.Sort != SInt {
+								return Term{}, false
+							}
+							return v.T, true
+						}
+						add(phi.Name()+">=entry", func(e *Enc, bind map[ssa.Value]Val, st *State) Term {
+							t, ok := get(e)
+							if !ok {
+								return True
+							}
+							return Ge(e.phiVal(phi, bind), t)
+						})
+						add(phi.Name()+"<=entry", func(e *Enc, bind map[ssa.Value]Val, st *State) Term {
+							t, ok := get(e)
+							if !ok {
+								return True
+							}
+							return Le(e.phiVal(phi, bind), t)
+						})
 					}
 				}
 				// upper bounds by lengths of slices/strings compared in the loop
@@ -82,10 +106,28 @@ func (e *Enc) genCandidates() {
 					v := e.phiVal(phi, bind)
 					return Or(Eq(SliceArr(v), IntLit(0)), Ge(Birth(SliceArr(v)), e.now0))
 				})
+				for _, in2 := range li.header.Instrs {
+					ip, ok := in2.(*ssa.Phi)
+					if !ok {
+						break
+					}
+					if b, ok := ip.Type().Underlying().(*types.Basic); !ok || b.Info()&types.IsInteger == 0 {
+						continue
+					}
+					add("len("+phi.Name()+")=="+ip.Name(), func(e *Enc, bind map[ssa.Value]Val, st *State) Term {
+						return Eq(SliceLen(e.phiVal(phi, bind)), e.phiVal(ip, bind))
+					})
+					add("len("+phi.Name()+")=="+ip.Name()+"+1", func(e *Enc, bind map[ssa.Value]Val, st *State) Term {
+						return Eq(SliceLen(e.phiVal(phi, bind)), Add(e.phiVal(ip, bind), IntLit(1)))
+					})
+				}
 			case *types.Pointer:
 				add(phi.Name()+".freshOrNil", func(e *Enc, bind map[ssa.Value]Val, st *State) Term {
 					v := e.phiVal(phi, bind)
 					return Or(Eq(v, IntLit(0)), Ge(Birth(v), e.now0))
+				})
+				add(phi.Name()+".nonNil", func(e *Enc, bind map[ssa.Value]Val, st *State) Term {
+					return Ne(e.phiVal(phi, bind), IntLit(0))
 				})
 			}
 		}
@@ -132,6 +174,58 @@ func (e *Enc) loopBoundTerms(li *loopInfo, phi *ssa.Phi) []boundTerm {
 				continue
 			}
 			if oi, ok := other.(ssa.Instruction); ok && li.blocks[oi.Block()] {
+				// the result of a pure function applied to values defined outside the loop
+				if call, ok := other.(*ssa.Call); ok {
+					name, _, _ := e.calleeName(call.Common())
+					if fc := e.p.Contracts.Funcs[name]; fc != nil && fc.Pure && e.p.SortOf(other.Type()) == SInt {
+						outside := true
+						var argVals []ssa.Value
+						if call.Common().IsInvoke() {
+							argVals = append(argVals, call.Common().Value)
+						}
+						argVals = append(argVals, call.Common().Args...)
+						for _, a := range argVals {
+							if ai, ok := a.(ssa.Instruction); ok && li.blocks[ai.Block()] {
+								outside = false
+							}
+						}
+						if outside {
+							seen[other] = true
+							out = append(out, boundTerm{desc: lastSeg(name) + "()", mk: func(e *Enc) (Term, bool) {
+								var as []Term
+								for _, a := range argVals {
+									v, ok := e.vals[a]
+									if !ok && !isConstLike(a) {
+										return Term{}, false
+									}
+									_ = v
+									as = append(as, e.termOf(a))
+								}
+								return e.pureApp(fc, name, 0, as, SInt), true
+							}})
+							continue
+						}
+					}
+				}
+				// a field of an object defined outside the loop, re-read in every iteration: use the field itself
+				if u, ok := other.(*ssa.UnOp); ok {
+					if fa, ok := u.X.(*ssa.FieldAddr); ok {
+						if bi, ok := fa.X.(ssa.Instruction); !ok || !li.blocks[bi.Block()] {
+							stT := derefType(fa.X.Type())
+							if _, local, _ := e.p.structSortName(stT); local && e.p.SortOf(other.Type()) == SInt {
+								seen[other] = true
+								fa := fa
+								out = append(out, boundTerm{desc: fa.X.Name() + "." + stT.Underlying().(*types.Struct).Field(fa.Field).Name(), mk: func(e *Enc) (Term, bool) {
+									bv, ok := e.vals[fa.X]
+									if !ok || bv.T.S == "" {
+										return Term{}, false
+									}
+									return Select(e.heapGet(e.cur, e.p.fieldKey(stT, fa.Field)), bv.T), true
+								}})
+							}
+						}
+					}
+				}
 				continue
 			}
 			if _, isConst := other.(*ssa.Const); isConst {
@@ -168,6 +262,13 @@ func (e *Enc) Houdini(opts SolveOpts) {
 		}
 		// solve only the candidate obligations
 		saved := e.obs
+		var nd []*Obligation
+		for _, ob := range e.obs {
+			if !ob.Derived {
+				nd = append(nd, ob)
+			}
+		}
+		e.obs = nd
 		var cands []*Obligation
 		for _, ob := range e.obs {
 			if ob.Kind == "cand" {
@@ -198,4 +299,12 @@ func (e *Enc) Houdini(opts SolveOpts) {
 		}
 	}
 	e.Encode()
+}
+
+func isConstLike(v ssa.Value) bool {
+	switch v.(type) {
+	case *ssa.Const, *ssa.Global, *ssa.Function:
+		return true
+	}
+	return false
 }
